@@ -36,7 +36,8 @@ def screen(c, K, out):
 
 def judged_columns(ctx, c, K, out, cap):
   """All columns in the quick tier; in the thorough tier (millions of enumerated kernels) a seeded sample of `cap`
-  columns per call plus every column the numpy screen flags.  Every column is still run through the real code."""
+  columns per call plus the columns the numpy screen flags (at most 5 * cap of them per call).  Every column is still
+  run through the real code."""
   n = K.shape[1]
   ctx.extra["columns_run"] = ctx.extra.get("columns_run", 0) + n
   if ctx.quick or n <= cap:
@@ -45,7 +46,10 @@ def judged_columns(ctx, c, K, out, cap):
   rng = np.random.default_rng(ctx.seed + n + len(c["sizes"]))
   pick = np.zeros(n, dtype=bool)
   pick[rng.choice(n, size=cap, replace=False)] = True
-  pick |= screen(c, K, out)
+  flagged = np.nonzero(screen(c, K, out))[0]
+  if len(flagged) > 5 * cap:          # (the listed known finding flags thousands of columns of its configurations)
+    flagged = rng.choice(flagged, size=5 * cap, replace=False)
+  pick[flagged] = True
   ctx.extra["columns_judged"] = ctx.extra.get("columns_judged", 0) + int(pick.sum())
   return np.nonzero(pick)[0]
 
